@@ -44,9 +44,15 @@ pub fn check(t: &Trace<'_>, out: &mut CaseOut) -> bool {
                 out.violations.push(viol("C18", "C18/status/not-exactly-one", format!("handle {} (op#{} {} id {}): status bits {:#05b} at event {}", h, msg.op, msg.kind, msg.pid, st, ev)));
             } else if *st != want {
                 let name = |b: u8| match b { 1 => "pending", 2 => "complete", _ => "invalidated" };
+                // a completed handle whose identifier is carried, after the counter came round
+                // again, by a later operation of the same broker session that is in flight now
+                let carried = want == 2 && *st == 1 && m.msgs.iter().any(|x| x.pid == msg.pid && x.epoch == msg.epoch && x.op != msg.op && msg.ended_ev.is_some_and(|e| x.ev_accept > e) && x.ev_accept < ev && x.ended_ev.is_none_or(|e| e >= ev));
+                if carried {
+                    out.count("completed_handles_whose_identifier_is_in_use_again", 1);
+                }
                 out.violations.push(viol(
                     "C18",
-                    format!("C18/status/{}-reported-{}/{}", name(want), name(*st), msg.kind),
+                    if carried { "C18/status/complete-reported-pending/identifier-carried-by-a-later-operation".to_string() } else { format!("C18/status/{}-reported-{}/{}", name(want), name(*st), msg.kind) },
                     format!("handle {} (op#{} {} id {}): reports {} but the reference model says {} at event {}", h, msg.op, msg.kind, msg.pid, name(*st), name(want), ev),
                 ));
             }
